@@ -61,7 +61,7 @@ def cases_ops(tier):
 
 
 ADD_ARGS = [(n, p) for n in ("a", "A", "d", "D", "c") for p in (False, True)]
-GET_ARGS = ["m", "M", "a/m", "A/m", "B/m", "d/m", "a/m/n", "default", "a/", "c/M"]
+GET_ARGS = ["m", "M", "a/m", "A/m", "B/m", "d/m", "a/m/n", "default", "a/", "c/M", "/m", "/"]  # "/m": a request naming the (non-existent) plug-in ""
 
 
 def _manager(T, state, log):
